@@ -127,5 +127,5 @@ package bft
 // evidence's OWN root height, and the double signers are read off the two bitmaps against that very committee - never
 // against the node's current one (bit i names a different validator there).
 //@ func (*BFT).ProcessDSE
-//@   callsite Check requires[evidencecommittee] arg1 == vs
-//@   callsite GetDoubleSigners requires[verifiedcommittee] arg2 == vs
+//@   callsite Check requires[evidencecommittee] arg1 == resultof(LoadCommittee)
+//@   callsite GetDoubleSigners requires[verifiedcommittee] arg2 == resultof(LoadCommittee)
